@@ -78,6 +78,26 @@ let register () =
           (match obj with Some b -> hex_of_bytes b | None -> "NONE")
     | _ -> "ERR args");
 
+  (* c14.upstream <op head|get|put> <budget> <yes|no|fail> : a chunk server whose upstream answers like this
+     -> client result class and number of requests *)
+  Drv.register "c14.upstream" (fun a -> match a with
+    | [op; budget; u] ->
+        let b = n_of_string budget in
+        (match op with
+         | "head" ->
+             let hr = (match u with "yes" -> HasYes | "no" -> HasNo | _ -> HasFail) in
+             let (r, n) = has_chunk b (const_script (handler_head hr)) in
+             (match r with HasTrue -> "true" | HasFalse -> "false" | HasErr -> "error") ^ " " ^ string_of_n n
+         | "get" ->
+             let gr = (match u with "no" -> GMissing | _ -> GFail) in
+             let zd = (fun _ -> None) and zc = (fun x -> x) in
+             let (r, n) = get_chunk Sha256.h_model zd b true false zero_id (const_script (handler_get zc zd [] gr)) in
+             (match r with CData _ -> "data" | CMissing -> "missing" | CErr -> "error") ^ " " ^ string_of_n n
+         | _ ->
+             let (r, n) = store_object b (const_script (resp (n_of_int 500) [])) in
+             (if r then "ok" else "error") ^ " " ^ string_of_n n)
+    | _ -> "ERR args");
+
   (* ---- client + chunk server + local store ----
      c14.remote <op get|has|put> <budget> <cli_uncompressed> <cli_skip> <auth> <writable> <skipverifywrite> <srv_compressed>
                 <store_uncompressed> <store_skip> <idhex> <datahex (put)> <files> <zdecomp tab> <zcomp tab>
